@@ -115,21 +115,25 @@ def check(ctx, rep):
         loops = [n for n in ast.walk(he.node) if isinstance(n, ast.For) and "eaexts" in norm(n.iter)]
         if not loops:
             problems.append("sidecar files are not read per configured extension (eaexts)")
-        opens = [n for n in ast.walk(he.node) if isinstance(n, ast.Call) and isinstance(n.func, ast.Attribute) and n.func.attr == "open"]
-        for o in opens:
+        from ..facts import expand_ast
+        from ..structure import bind_params, helper_calls
+
+        # the reader and the helpers it delegates to (their parameters stand for the reader's arguments)
+        scopes = [(he, {})] + [(g, b) for g, _, caller, b in helper_calls(prog, ctx.resolver, he, ge, depth=1) if caller is he]
+        opens = [(n, fn, b) for fn, b in scopes for n in ast.walk(fn.node) if isinstance(n, ast.Call) and isinstance(n.func, ast.Attribute) and n.func.attr == "open"]
+        for o, fn, b in opens:
             mode = o.args[1] if len(o.args) > 1 else None
             if not (isinstance(mode, ast.Constant) and mode.value == "r"):
                 problems.append("sidecar file not opened in text mode 'r'")
-            if not (o.args and isinstance(o.args[0], ast.BinOp) and isinstance(o.args[0].op, ast.Add)):
+            a0 = expand_ast(bind_params(expand_ast(o.args[0], fn), b), he) if o.args else None
+            if not (a0 is not None and isinstance(a0, ast.BinOp) and isinstance(a0.op, ast.Add)):
                 problems.append("sidecar name is not <path> + <extension>")
-        seteas = [n for n in ast.walk(he.node) if isinstance(n, ast.Call) and isinstance(n.func, ast.Attribute) and n.func.attr == "setea"]
+        seteas = [(n, fn) for fn, b in scopes for n in ast.walk(fn.node) if isinstance(n, ast.Call) and isinstance(n.func, ast.Attribute) and n.func.attr == "setea"]
         if not seteas:
             problems.append("the sidecar text is not stored as an extended attribute")
-        for s in seteas:
+        for s, fn in seteas:
             if len(s.args) == 2:
-                from ..facts import expand_ast
-
-                v = expand_ast(s.args[1], he)
+                v = expand_ast(s.args[1], fn)
                 attrs = {n.func.attr for n in ast.walk(v) if isinstance(n, ast.Call) and isinstance(n.func, ast.Attribute)}
                 if not (attrs & {"readlines", "read", "readline", "splitlines"}):
                     problems.append("the block text is not read from the sidecar file")
